@@ -281,6 +281,44 @@ int main(int argc, char** argv) {
       d2.to<JsonArray>().add("changed"); d3.clear(); d4["x"]["k"] = 1; d4["x"].add(2);
       string after = showS(d.as<JsonVariantConst>());
       out = before + " " + s2 + " " + s3 + " " + s4 + " set=" + (r2 ? "1" : "0") + " eq=" + (eq ? "1" : "0") + " src=" + (after == before ? "same" : "CHANGED");
+    } else if (op == "mpdoc") {
+      // slot-level tie of deserializeMsgPack: mpdoc <limit> <pre 0|1> <fail: - | a<k> | f<k>> <hex>
+      int lim, pre; string fail, hex; is >> lim >> pre >> fail >> hex;
+      string in = unhex(hex); Block b(in); CountingReader r{b.p, in.size()};
+      {
+        Spy L(0); L.logging = true; GLOG.clear();
+        {
+          JsonDocument d(&L);
+          if (pre) deserializeJson(d, "[1,\"abc\",{\"k\":2,\"abc\":12345678901}]");
+          GLOG.clear();
+          if (fail[0] == 'a') L.failAt.insert(L.calls + atol(fail.c_str() + 1));
+          if (fail[0] == 'f') L.failFrom = L.calls + atol(fail.c_str() + 1);
+          DeserializationError e = deserializeMsgPack(d, r, DeserializationOption::NestingLimit((uint8_t)lim));
+          out = string(e.c_str()) + " " + showS(d.as<JsonVariantConst>()) + " " + std::to_string(r.pos) + " o=" + (d.overflowed() ? "1" : "0") + "|" + HLOG();
+          L.failAt.clear(); L.failFrom = -1; L.logging = false;
+        }
+        if (!L.live.empty()) out += " LEAK";
+      }
+    } else if (op == "jsondoc") {
+      // slot-level tie of deserializeJson: code, document, bytes consumed, overflowed flag AND the allocator log, under a failure schedule.
+      // jsondoc <cfg> <limit> <pre 0|1> <fail: - | a<k> | f<k>> <hex>
+      int cfg, lim, pre; string fail, hex; is >> cfg >> lim >> pre >> fail >> hex;
+      if (cfg != cfgBits()) { std::cout << "cfg-mismatch\n"; continue; }
+      string in = unhex(hex); Block b(in); CountingReader r{b.p, in.size()};
+      {
+        Spy L(0); L.logging = true; GLOG.clear();
+        {
+          JsonDocument d(&L);
+          if (pre) deserializeJson(d, "[1,\"abc\",{\"k\":2,\"abc\":12345678901}]");
+          GLOG.clear();
+          if (fail[0] == 'a') L.failAt.insert(L.calls + atol(fail.c_str() + 1));
+          if (fail[0] == 'f') L.failFrom = L.calls + atol(fail.c_str() + 1);
+          DeserializationError e = deserializeJson(d, r, DeserializationOption::NestingLimit((uint8_t)lim));
+          out = string(e.c_str()) + " " + showS(d.as<JsonVariantConst>()) + " " + std::to_string(r.pos) + " o=" + (d.overflowed() ? "1" : "0") + "|" + HLOG();
+          L.failAt.clear(); L.failFrom = -1; L.logging = false;
+        }
+        if (!L.live.empty()) out += " LEAK";
+      }
     } else if (op == "conv") {
       // C13: every typed extraction of the root value
       int cfg; string spec; is >> cfg >> spec;
